@@ -433,6 +433,20 @@ impl Universe {
         }
         Universe { name: "U3b=(ab)-families", words }
     }
+    /// prefix x repeat-count families: {x,y}·a^{1..4} and {x,y}·a^{2,3}·b (12 words, 4,095 subsets).
+    /// F18 (a range edge merged with single-count edges during minimisation) needs five such words.
+    pub fn rep_families() -> Universe {
+        let mut words = vec![];
+        for p in ["x", "y"] {
+            for k in 1..=4 {
+                words.push(format!("{}{}", p, "a".repeat(k)));
+            }
+            for k in 2..=3 {
+                words.push(format!("{}{}b", p, "a".repeat(k)));
+            }
+        }
+        Universe { name: "Urep={x,y}a^k[b]", words }
+    }
     pub fn u4() -> Universe {
         Universe { name: "U4={a,b}^<=4", words: words_upto(&["a", "b"], 4) }
     }
